@@ -4,6 +4,7 @@ package main
 
 import (
 	"fmt"
+	"math"
 	"os"
 
 	vaxis "git.sr.ht/~rockorager/vaxis"
@@ -169,12 +170,107 @@ func genTree(depth int, maxKids int) *tree {
 	if depth > 0 {
 		n := cfg.Rand.Intn(maxKids + 1)
 		for i := 0; i < n; i++ {
-			k := kid{Col: cfg.Rand.Intn(10) - 3, Row: cfg.Rand.Intn(7) - 2, Z: pick([]int{0, 0, 0, 1, -1, 2, 5})}
+			k := kid{Col: cfg.Rand.Intn(10) - 3, Row: cfg.Rand.Intn(7) - 2, Z: genZ()}
 			k.T = genTree(depth-1, 3)
 			t.Kids = append(t.Kids, k)
 		}
 	}
 	return t
+}
+
+// z-indices: ZIndex is a Go int and "in z-order" means the mathematical order of the integers:
+// small values and ties, and the ends of the int range (pairs more than MaxInt apart, whose
+// difference does not fit an int)
+var extremeZ = []int{math.MinInt, math.MinInt + 1, -math.MaxInt / 2, -2, -1, 0, 1, 2, math.MaxInt/2 + 1, math.MaxInt - 1, math.MaxInt}
+
+func genZ() int {
+	switch cfg.Rand.Intn(8) {
+	case 0:
+		return pick(extremeZ)
+	case 1: // anywhere in the int range
+		return int(cfg.Rand.Uint64())
+	default:
+		return pick([]int{0, 0, 0, 1, -1, 2, 5})
+	}
+}
+
+// zTree: a root whose children (one per z in zs, in this sibling order) all cover the cell
+// (1,0) and each have one cell of their own, so the whole paint order is visible
+func zTree(zs []int) *tree {
+	n := len(zs)
+	t := filled(n+2, 2)
+	for i, z := range zs {
+		// child i: columns 1..i+1 of row 0 and row 1: every later-painted sibling hides a
+		// different part of it
+		t.Kids = append(t.Kids, kid{Col: 1, Row: 0, Z: z, T: filled(i+1, 1+i%2)})
+	}
+	return t
+}
+
+func permutations(xs []int) [][]int {
+	if len(xs) <= 1 {
+		return [][]int{append([]int{}, xs...)}
+	}
+	var out [][]int
+	for i := range xs {
+		rest := append(append([]int{}, xs[:i]...), xs[i+1:]...)
+		for _, p := range permutations(rest) {
+			out = append(out, append([]int{xs[i]}, p...))
+		}
+	}
+	return out
+}
+
+// zOrders adds to the render stream: every ordered pair of extreme z-indices, every sibling
+// order of triples / quadruples that mix the ends of the int range with small values, and
+// random sibling lists drawn from the whole range (with ties)
+func zOrders(s *hx.Stream) {
+	for _, a := range extremeZ {
+		for _, b := range extremeZ {
+			nextID = 0
+			renderCase(s, 6, 3, nil, false, zTree([]int{a, b}), "z-extreme", "z-pair")
+		}
+	}
+	sets := [][]int{{-1, 0, math.MaxInt}, {math.MinInt, 0, 1}, {math.MinInt, -1, math.MaxInt}, {math.MinInt, math.MaxInt, math.MaxInt - 1},
+		{-2, math.MaxInt - 1, math.MaxInt/2 + 1}, {math.MinInt, -1, 1, math.MaxInt}, {-math.MaxInt / 2, math.MaxInt/2 + 1, 0, 0}}
+	for _, set := range sets {
+		for _, p := range permutations(set) {
+			nextID = 0
+			renderCase(s, 8, 3, nil, false, zTree(p), "z-extreme", fmt.Sprintf("z-perm%d", len(p)))
+		}
+	}
+	n := 60
+	if cfg.Thorough() {
+		n = 3000
+	}
+	for i := 0; i < n; i++ {
+		nextID = 0
+		k := 2 + cfg.Rand.Intn(5)
+		if cfg.Rand.Intn(6) == 0 {
+			k = 13 + cfg.Rand.Intn(4) // more than 12 children: sort.Slice leaves its insertion sort
+		}
+		zs := make([]int, k)
+		for j := range zs {
+			switch cfg.Rand.Intn(3) {
+			case 0:
+				zs[j] = pick(extremeZ)
+			case 1:
+				zs[j] = int(cfg.Rand.Uint64())
+			default:
+				zs[j] = cfg.Rand.Intn(5) - 2
+			}
+		}
+		if k > 12 { // an unstable sort may order ties either way: keep the z-indices distinct
+			seen := map[int]bool{}
+			for j := range zs {
+				for seen[zs[j]] {
+					zs[j] = int(cfg.Rand.Uint64())
+				}
+				seen[zs[j]] = true
+			}
+		}
+		renderCase(s, k+3, 3, nil, false, zTree(zs), "z-extreme", "z-random")
+	}
 }
 
 func (t *tree) surface() vxfw.Surface {
@@ -353,7 +449,7 @@ func genShaped(depth, w, h int) *tree {
 	n := cfg.Rand.Intn(4)
 	for i := 0; i < n; i++ {
 		var k kid
-		k.Z = pick([]int{0, 0, 0, 1, -1, 2})
+		k.Z = genZ()
 		switch cfg.Rand.Intn(6) {
 		case 0, 1: // wrapper: same size at (0,0)
 			k.T = genShaped(depth-1, w, h)
@@ -561,7 +657,8 @@ func main() {
 	cfg = hx.ParseFlags()
 	surf, rend, draw, paint, hist := surfaceStream(), renderStream(), drawStream(), paintStream(), histStream()
 	renderShapes(rend)
-	streams := []*hx.Stream{surf, rend, renderwinStream(), apprunStream(), draw, paint, hist}
-	cfg.Write("C14", "surface: NewSurface(w,h) + a sequence of WriteCell calls (sizes 0..40 and around/above 65535 cells; coordinates inside, ==size, size+1, 65535, random), non-trivial = at least one write inside the surface; render: surface trees rendered by Surface.render into the root window of a real Vaxis on a fake console — random trees (depth <= 3, <= 12 children per node, negative and overflowing offsets, tied and distinct z), directed wrapper trees (root smaller than / equal to / larger than the terminal on each axis, 0..3 same-size children at (0,0) nested in each other, innermost children inside and overhanging each side) and shaped random trees (wrappers, almost-wrappers one cell off in size or position, children larger than or sticking out of their parent, root sizes relative to the window), non-trivial = the tree has children; renderwin: the same into the terminal window narrowed by 1..3 Window.New calls (whole, rest -1, inset, shifted partly or wholly outside, negative origin, larger than the parent), non-trivial = the tree has children; apprun: the real vxfw.App.Run on a fake console with a root widget that returns a generated tree (root smaller / equal / larger than the terminal, children of the root overhanging it), the frame decoded from the terminal output, non-trivial = the tree has children; draw: Draw of Text/RichText (soft and hard wrap), Center, Button, TextField, list.Dynamic (fresh state) and nestings over Max in {0,1,2,3,7,255,256,65534,65535}^2 (products capped for the allocating widgets) and generated contents (empty, multi-line, wide, combining, longer/taller than the maximum, >65535 lines or columns), non-trivial = content does not fit the maximum or the widget is a container; paint: App.layout + render — Draw of a generated widget tree with Max = window size, rendered into the root window of a real Vaxis (1..24 x 1..8), non-trivial = some screen cell is painted; hist: ONE widget value (every kind above and nestings) built once and drawn 3..6 times with a sequence of constraints (directed: shown/collapsed/still collapsed with 0x0, w x 0, 0 x h; collapsed first; alternating; the same frame repeated; unbounded in between; growing; shrinking; fields changed while the constraint repeats — and random sequences that repeat earlier constraints) and with exported fields changed between draws (Content/Softwrap, segments, Value, Label, Gap, DrawCursor, fields of list items, contents becoming empty); every step records the surface the long-lived value returned (decided against the contract clauses and against the model's history), non-trivial = at least 3 draws with two different constraints or a field change",
+	zOrders(rend)
+	streams := []*hx.Stream{surf, rend, renderwinStream(), apprunStream(), apphistStream(), draw, paint, hist}
+	cfg.Write("C14", "surface: NewSurface(w,h) + a sequence of WriteCell calls (sizes 0..40 and around/above 65535 cells; coordinates inside, ==size, size+1, 65535, random), non-trivial = at least one write inside the surface; render: surface trees rendered by Surface.render into the root window of a real Vaxis on a fake console — random trees (depth <= 3, <= 12 children per node, negative and overflowing offsets, tied and distinct z), directed wrapper trees (root smaller than / equal to / larger than the terminal on each axis, 0..3 same-size children at (0,0) nested in each other, innermost children inside and overhanging each side) and shaped random trees (wrappers, almost-wrappers one cell off in size or position, children larger than or sticking out of their parent, root sizes relative to the window), non-trivial = the tree has children; renderwin: the same into the terminal window narrowed by 1..3 Window.New calls (whole, rest -1, inset, shifted partly or wholly outside, negative origin, larger than the parent), non-trivial = the tree has children; apprun: the real vxfw.App.Run on a fake console with a root widget that returns a generated tree (root smaller / equal / larger than the terminal, children of the root overhanging it), the frame decoded from the terminal output, non-trivial = the tree has children; apphist: ONE App.Run during which the terminal is resized 1..5 times (directed: shrink then grow beyond the start, grow then shrink, the same size again, one axis each way, back to the first size; random size sequences 2..13 x 2..6) with a frame after every resize, the root widget returning a fresh generated tree per step (filling the terminal exactly, smaller, larger, with wrappers and overhanging children), every cell of the terminal after every frame compared with the model (window = the current terminal size), non-trivial = the size changes at least once; render also: overlapping siblings with z-indices at the ends of the int range (MinInt, MinInt+1, -1, 0, 1, MaxInt-1, MaxInt, random 64-bit) in every ordered pair, every sibling order of triples and quadruples, random lists of 2..16; draw: Draw of Text/RichText (soft and hard wrap), Center, Button, TextField, list.Dynamic (fresh state) and nestings over Max in {0,1,2,3,7,255,256,65534,65535}^2 (products capped for the allocating widgets) and generated contents (empty, multi-line, wide, combining, longer/taller than the maximum, >65535 lines or columns), non-trivial = content does not fit the maximum or the widget is a container; paint: App.layout + render — Draw of a generated widget tree with Max = window size, rendered into the root window of a real Vaxis (1..24 x 1..8), non-trivial = some screen cell is painted; hist: ONE widget value (every kind above and nestings) built once and drawn 3..6 times with a sequence of constraints (directed: shown/collapsed/still collapsed with 0x0, w x 0, 0 x h; collapsed first; alternating; the same frame repeated; unbounded in between; growing; shrinking; fields changed while the constraint repeats — and random sequences that repeat earlier constraints) and with exported fields changed between draws (Content/Softwrap, segments, Value, Label, Gap, DrawCursor, fields of list items, contents becoming empty); every step records the surface the long-lived value returned (decided against the contract clauses and against the model's history), non-trivial = at least 3 draws with two different constraints or a field change",
 		streams, drawExtra, nil)
 }
